@@ -308,8 +308,7 @@ theorem doCopyMove_effect {t : Tree} {r : Req} {s : Nat} {t' : Tree} (hwf : WF t
     have := cmCollection_effect hwf h hs h207 hconf q
     rw [this]
     rcases hm with hm | hm
-    · simp only [rfcEffect, hm, hdo, hsrc, true_and]
-      split <;> simp
+    · by_cases hz : r.depth = .zero <;> simp [rfcEffect, hm, hdo, hsrc, hz]
     · simp [rfcEffect, hm, hdo]
   · -- the source is a file
     rename_i c hl
